@@ -470,6 +470,8 @@ func (r *Reader) seekIndexed(want record) (*tableIter, error) {
 		return nil, err
 	}
 
+	// Children of the top level lie before its first block.
+	limit := r.offsets[want.typ()].IndexOffset
 	for {
 		var rec indexRecord
 		ok, err := idxIter.Next(&rec)
@@ -480,11 +482,14 @@ func (r *Reader) seekIndexed(want record) (*tableIter, error) {
 			return nil, err
 		}
 
-		if rec.Offset >= idxIter.blockOff {
-			// Index blocks come after the blocks they point to. This
-			// also keeps corrupt indexes from forming a cycle.
+		if rec.Offset >= limit {
+			// Every level of an index comes after the blocks it
+			// points to, so each step down must lead to a lower
+			// offset than the previous one. This keeps corrupt
+			// indexes from forming a cycle.
 			return nil, fmtError
 		}
+		limit = rec.Offset
 		tabIter, err := r.tabIterAt(rec.Offset, blockTypeAny)
 		if err != nil {
 			return nil, err
